@@ -39,15 +39,8 @@ def encStmt : RStmt → List String
   | .assign a b => "A" :: (encSel a ++ encSel b)
   | .other => ["O"]
 
-def mapM? {α β : Type} (f : α → Option β) : List α → Option (List β)
-  | [] => some []
-  | a :: r =>
-    match f a, mapM? f r with
-    | some b, some l => some (b :: l)
-    | _, _ => none
-
 def encModule (m : KV.VerilogText.VModule) : String :=
-  match mapM? KV.VerilogText.toR m.stmts with
+  match KV.VerilogText.toRs m.stmts with
   | none => s!"unsup {pct m.name} ~"
   | some rs =>
     let toks := toString m.ports.length :: (m.ports.map pct ++ rs.flatMap encStmt)
